@@ -25,7 +25,27 @@ instance). NOT decided: pandas' merge semantics.
 CP = "accelforge/mapper/FFM/_join_pmappings/compress_pmappings.py"
 
 
-def check(ctx):
+def _z7(ctx):
+    R = "C15-Z7"
+    ctx.doc(R, "row ids keep their integer width: nothing on the join path casts a compressed-index column (or the index it is written from) to a narrower type -- ids are offsets over ALL tables of an Einsum and wrap silently in uint8/16/32")
+    n = 0
+    for rel in (CP, "accelforge/mapper/FFM/_join_pmappings/pmapping_dataframe.py", "accelforge/mapper/FFM/_join_pmappings/join_pmappings.py", "accelforge/mapper/FFM/_join_pmappings/pmapping_group.py"):
+        m = ctx.module(rel, R)
+        for fi in m.funcs.values():
+            if fi.parent is not None:
+                continue
+            mentions = any(isinstance(x, ast.Name) and x.id == "COMPRESSED_INDEX" for x in fi.walk(into_nested=True)) or any(isinstance(x, ast.Constant) and x.value == "compressed_index" for x in fi.walk(into_nested=True))
+            if not mentions:
+                continue
+            n += 1
+            casts = [c for c in fi.calls("astype", into_nested=True) if c.args and any(k in norm(c.args[0]) for k in ("uint", "int8", "int16", "int32", "n_bits", "dtype"))]
+            ctx.check(not casts, R, fi, casts[0] if casts else fi.node, f"`{norm(casts[0])[:70] if casts else ''}` narrows a column in a function that handles the compressed index: a row id at or above the type's range wraps to another row's id, "
+                      "decompression then finds exactly one (foreign) source row and restores its details without any error", f"{fi.name}: row ids not narrowed")
+    ctx.require(n >= 2, R, f"functions handling the compressed index: {n}")
+    ctx.floor(R, 2)
+
+
+def _core(ctx):
     R = "C15-Z1"
     ctx.doc(R, "keep/compress columns partition the table; both slices come from the same re-indexed frame")
     fi = ctx.func(CP, "_compress", R)
@@ -166,6 +186,11 @@ def check(ctx):
     ctx.check(len(reb) == 2, R, ce, reb[0] if reb else ce.node, f"{len(reb)} of the 2 result dicts are rebuilt in name_order (the other keeps completion order)", "both result dicts rebuilt in name_order")
     ctx.floor(R, 2)
 
+
+
+def check(ctx):
+    _core(ctx)
+    _z7(ctx)
 
 VARIANTS = [
     {"kind": "F", "name": "walk-pops-detail-store", "rule": "C15-Z6", "edits": [(CP, "                start_index, chosen = next(decompressed_iter)", "                start_index, chosen = decompress.popitem()")]},
